@@ -19,8 +19,8 @@ from vf import core, frames, fresh, fresh_tasks
 PROPERTY = "C07"
 RULE = (
     "cases = histories (operation sequences): build(formula, frame), evaluate-common(design, frame), "
-    "evaluate-group(design, frame), set-config(mode), model_description(formula), rebuild(design) over a pool of 11 "
-    "formulas x 4 frames (one with unseen levels so that the configuration matters, one with the shape of the training frame; one formula takes a function from extra_namespace and all builds share one captured Environment); all histories of "
+    "evaluate-group(design, frame), set-config(mode), model_description(formula), rebuild(design) over a pool of 12 "
+    "formulas x 4 frames (one training frame has a column of mean exactly 0, one a missing value and a formula uses every column of it; one with unseen levels so that the configuration matters, one with the shape of the training frame; one formula takes a function from extra_namespace and all builds share one captured Environment); all histories of "
     "length <= 3 over a reduced pool are enumerated, longer ones (up to 30 steps) come from a Hypothesis rule-based "
     "state machine; distinct = distinct history; non-trivial = some design is evaluated at least twice with different "
     "frames, or evaluated after another design using the same transform was built, or after a configuration change"
@@ -42,6 +42,7 @@ FORMULAS = [
     "y ~ ext(x) + f",  # `ext` comes from extra_namespace; successive builds pass different functions under that name
     "y ~ 0 + S(f) + C(g, Sum):x",  # full-rank and reduced sum codings
     "y ~ 0 + T(g, 'g1') + poly(z, 2)",
+    "y ~ x + z + w + f + g + h + C(k)",  # uses every column of the frames (one of which has a missing value in w)
 ]
 USES_EXT = {8}
 MODES = ["error", "warning", "silent"]
@@ -50,10 +51,17 @@ MODES = ["error", "warning", "silent"]
 def make_frames():
     a = frames.factorial_spec({"f": 2, "g": 3, "h": 2, "k": 2}, 1, seed=3, catkinds={"f": "str", "g": "cat", "h": "ordcat"})
     n = frames.nrows(a)
+    for c in a["cols"]:
+        if c["name"] == "z":  # the mean of z on the first training frame is exactly 0.0 (x stays in general position)
+            c["values"] = [((i * 7) % n - (n - 1) / 2.0) * 0.25 for i in range(n)]
     b = frames.take(a, [(i * 5 + 2) % n for i in range(10)])
     for c in b["cols"]:
         if c["kind"] == "float":
             c["values"] = [round(v * 1.7 - 0.3, 6) for v in c["values"]]
+    for c in b["cols"]:
+        if c["name"] == "w":  # a missing value in a column only the last formula uses
+            c["values"] = list(c["values"])
+            c["values"][3] = None
     c_ = frames.take(a, [1, 4, 4, 7, 0, 9])
     # unseen levels relative to the training frames: f gets 'zz', g a new group
     for col in c_["cols"]:
@@ -188,7 +196,7 @@ class History:
         out = []
         for name, sl in m.slices.items():
             try:
-                view = np.array(m[name], copy=True).tolist()
+                view = fresh_tasks.nan_safe(np.array(m[name], copy=True).tolist())
             except Exception as e:  # pylint: disable=broad-except
                 view = type(e).__name__
             out.append((name, sl.start, sl.stop, view))
